@@ -139,7 +139,7 @@ class WeightedProbabilityBasedSquaredError(ProbabilityBasedLossFunction):
         self, mode_weight: str, data: List[Tuple[int, np.ndarray]]
     ) -> None:
         if mode_weight == "identity":
-            pass
+            self.set_weight_matrices(None)
         elif mode_weight == "custom":
             self.set_weight_matrices(self.option.weights)
         elif (
